@@ -96,7 +96,9 @@ class C18(core.Prop):
                     'max_sampled_attempts': rng.randint(0, 2)}
         as_dict = rng.random() < 0.3
         return {'kind': 'extract', 'examples': ex, 'opts': opts, 'size': size,
-                'seed': rng.choice([None, 1, 7]), 'as_dict': as_dict}
+                'seed': rng.choice([None, 1, 7]), 'as_dict': as_dict,
+                # byte strings with an encoding, through the module-level extract(..., as_object=True)
+                'as_bytes': rng.random() < 0.2}
 
     # ------------------------------------------------------------------
     def _extract(self, case):
@@ -118,7 +120,19 @@ class C18(core.Prop):
         import random
         st = random.getstate()
         try:
-            x = rexpy.Extractor(arg, seed=case.get('seed'), **opts)
+            enc_ok = case.get('as_bytes') and all(s is None or isinstance(s, str) for s in ex)
+            if enc_ok:
+                try:
+                    if isinstance(arg, dict):
+                        barg = {(k.encode('utf-8') if k is not None else None): v for k, v in arg.items()}
+                    else:
+                        barg = [(s.encode('utf-8') if s is not None else None) for s in arg]
+                except UnicodeEncodeError:
+                    enc_ok = False
+            if enc_ok:
+                x = rexpy.extract(barg, seed=case.get('seed'), as_object=True, encoding='utf-8', **opts)
+            else:
+                x = rexpy.Extractor(arg, seed=case.get('seed'), **opts)
         finally:
             random.setstate(st)
         self._xk, self._xv = key, x
